@@ -637,6 +637,14 @@ def np_isnan(I, x):
     raise Unsupported("np.isnan outside the F-real profile")
 
 
+class _NaNConst:
+    """np.nan as a read-only constant; comparisons go through MaybeNaN"""
+
+
+from .values import MaybeNaN as _MaybeNaN  # noqa: E402
+NAN = _MaybeNaN(True, z3.IntVal(0))
+
+
 def mk_dtype(name):
     def ctor(I, x=0, *a, **k):
         if isinstance(x, (int, z3.ArithRef)):
@@ -667,7 +675,7 @@ def install(engine):
         "sqrt": F("np.sqrt", np_sqrt), "where": F("np.where", np_where),
         "min": F("np.min", np_min), "max": F("np.max", np_max),
         "copy": F("np.copy", lambda I, a, **k: Arr(a.n, a.at, a.kind, a.dtype)),
-        "nan": Opaque("nan"), "inf": Opaque("inf"),
+        "nan": NAN, "inf": Opaque("inf"),
         "int64": mk_dtype("int64"), "int32": mk_dtype("int32"), "float64": mk_dtype("float64"),
         "uint64": mk_dtype("uint64"), "bool_": mk_dtype("bool"), "int_": mk_dtype("int64"),
         "ndarray": Opaque("np.ndarray"),
